@@ -41,6 +41,7 @@ pub fn config_strategy(allow_filter: bool) -> BoxedStrategy<WireConfig> {
             seqs,
             nat_peers: vec![],
             nat_kind: 0,
+            dual_records: false,
             foreign_enr_answer: vec![],
             v_session_timeout_ms: None,
             v_session_capacity: None,
@@ -69,7 +70,7 @@ fn know() -> BoxedStrategy<Know> {
 }
 
 fn addr_sel() -> BoxedStrategy<AddrSel> {
-    prop_oneof![3 => Just(AddrSel::Original), 2 => (0u8..3).prop_map(AddrSel::Attacker), 1 => (0u8..4).prop_map(AddrSel::Node), 2 => any::<u8>().prop_map(AddrSel::SameIpOtherPort)].boxed()
+    prop_oneof![3 => Just(AddrSel::Original), 2 => (0u8..3).prop_map(AddrSel::Attacker), 1 => (0u8..4).prop_map(AddrSel::Node), 2 => any::<u8>().prop_map(AddrSel::SameIpOtherPort), 1 => Just(AddrSel::MappedV6), 1 => Just(AddrSel::OtherAdvertised)].boxed()
 }
 
 fn xsel() -> BoxedStrategy<XSel> {
